@@ -25,7 +25,7 @@ Qed.
 
 Lemma denc32_full_blocks k : forall prev vs g, (128 * k <= length vs)%nat ->
   blocks (k + g) (deltas32 prev vs) =
-  denc32_full k prev vs ++ blocks g (deltas32 (denc32_prev k prev vs) (skipn (128 * k) vs)).
+  denc32_full k prev vs (blocks g (deltas32 (denc32_prev k prev vs) (skipn (128 * k) vs))).
 Proof.
   induction k as [|k IH]; intros prev vs g H.
   - reflexivity.
@@ -39,7 +39,7 @@ Proof.
     { rewrite last_firstn_nth by lia. apply nth_indep. lia. }
     rewrite Ep.
     rewrite (IH (nth 127 vs 0) (skipn 128 vs) g) by (rewrite skipn_length; lia).
-    rewrite skipn_skipn'. rewrite <- app_assoc.
+    rewrite skipn_skipn'.
     replace (128 * S k)%nat with (128 + 128 * k)%nat by lia. reflexivity.
 Qed.
 
@@ -347,7 +347,7 @@ Theorem delta_encode32_meta_ok v0 rest :
   m_maxBitWidth m = bits_needed (max_val (deltas32 v0 rest)).
 Proof.
   cbv zeta. unfold delta_encode32_meta. cbv zeta.
-  cbn [m_count m_encodedBytes m_blockCount m_lastBlockSize m_maxBitWidth].
+  cbn [m_count m_encodedBytes m_blockCount m_lastBlockSize m_maxBitWidth]. rewrite nlen_eq.
   set (n := N.of_nat (length rest)) in *.
   repeat split.
   - destruct (0 <? n mod 128) eqn:F; lia.
